@@ -192,6 +192,12 @@ def run_go(script_path, out_path, timeout=600, binary=None):
 
 
 MIS = re.compile(r"^MISMATCH line=(\d+) cmd=\[(.*?)\] expected=\[(.*)\] got=\[(.*)\]$")
+# A disagreement of this kind is a broken CORRESPONDENCE, not by itself a failing input: the checker has already found, on the same
+# line and before this comparison, that the Go result denotes the right set, leaves its operands as it should, answers with the right
+# boolean and is well-formed (Validate-level) — only the literal representation (container kinds, payload layout, sharing flags) is not
+# the one the hand-written L2 model computes.  A harmless rewrite of the code does that too.  Such a line is reported only when the
+# search through everything else the check runs found no input on which the property itself fails, and then with no-failing-input-found.
+CORR_ONLY = re.compile(r"= Go representation; model:|array kernel model \(L2\) = Go array|^plane model: ")
 
 
 def run_lean(script_path, go_path, timeout=900):
@@ -416,7 +422,7 @@ def check_property(pid, tier, seed, replay_only=None):
         mism, nout, crash = execute(lines, tag, binary=binary)
         nontriv = getattr(execute, "last_nontrivial", {}).pop(tag, set())
         out = {"nontrivial": nontriv, "suite": suite, "seed": sd, "lines": lines, "hist": hist, "nout": nout, "crash": crash, "foreign": [], "viol": None,
-               "known": []}
+               "known": [], "corr": None}
         for mm in mism:
             op = op_of(mm["cmd"])
             owned = P.get("owns")
@@ -424,6 +430,8 @@ def check_property(pid, tier, seed, replay_only=None):
             if (owns_fn is not None and not owns_fn(op, mm, suite)) or (owns_fn is None and owned is not None and op not in owned):
                 out["foreign"].append({"suite": suite, "seed": sd, "op": op, "line": mm["line"]})
                 continue
+            if out["corr"] is not None and CORR_ONLY.search(mm["expected"]):
+                continue    # one minimised report of the broken correspondence per suite run is enough
             script = minimise(lines, mm["line"], op, budget=60 if tier == "quick" else 200)
             mm2, _, _ = execute(script, "final")
             final = [m for m in mm2 if m["line"] == len(script)]
@@ -433,6 +441,10 @@ def check_property(pid, tier, seed, replay_only=None):
             if k:
                 out["known"].append((k, script))
                 continue
+            if CORR_ONLY.search(rec["expected"]):
+                if out["corr"] is None:
+                    out["corr"] = (script, rec, sig)
+                continue    # keep looking for an input on which the property itself fails
             out["viol"] = (script, rec, sig)
             break   # one minimised report per suite run is enough
         return out
@@ -468,6 +480,25 @@ def check_property(pid, tier, seed, replay_only=None):
                        "how_to_replay": "python3 tools/run_check.py --replay %s" % os.path.relpath(rp, ROOT)},
                       open(rp, "w"), indent=1)
             violations.append((rp, ""))
+    if not violations:
+        # only the literal-representation correspondence broke: the search (every other line of every suite of this check) found no
+        # input on which the property fails; report the broken correspondence, with the lines on which it shows
+        for out in results:
+            if out["corr"] and len(violations) < 3:
+                script, rec, sig = out["corr"]
+                h = hashlib.sha256("\n".join(script).encode()).hexdigest()[:10]
+                rp = os.path.join(ROOT, "replays", "%s-corr-%s.json" % (pid, h))
+                json.dump({"property": pid, "seed": out["seed"], "tier": tier, "suite": out["suite"],
+                           "broken": "correspondence (tie B, exact representation): %s" % rec["expected"].split("; model:")[0],
+                           "note": "on this script the Go result denotes the right set, is well-formed and answers correctly; only its literal "
+                                   "representation differs from the L2 model's, so the theorems about that model no longer speak about this code",
+                           "script": script, "failing_command": rec["cmd"], "model_expected": rec["expected"][:3000],
+                           "go_output": rec["got"][:3000], "signature": sig,
+                           "theorems": P.get("theorems", []),
+                           "searched": {"evaluations": cov["evaluations"], "suites": cov["suites"], "seed": seed, "tier": tier},
+                           "how_to_replay": "python3 tools/run_check.py --replay %s" % os.path.relpath(rp, ROOT)},
+                          open(rp, "w"), indent=1)
+                violations.append((rp, " no-failing-input-found"))
     if proof_broken and not violations:
         h = hashlib.sha256(proof_broken.encode()).hexdigest()[:10]
         rp = os.path.join(ROOT, "replays", "%s-proof-%s.json" % (pid, h))
